@@ -1,3 +1,4 @@
+import re
 from extract import src, one, HEADER, ExtractError
 
 
@@ -19,18 +20,52 @@ def downlink_consts():
     remove = one(r'const REMOVE: &\[u8\] = b"([^"]*)";', r, "REMOVE")
     off = one(r"const KEY_OFFSET: usize = (\d+);", r, "KEY_OFFSET")
     d = src("runtime/swimos_runtime/src/downlink/interpretation/mod.rs")
-    # SINGLE_FRAME_STATE: default true (value), false for the map interpretation
-    one(r"const SINGLE_FRAME_STATE: bool = true;", d, "default SINGLE_FRAME_STATE")
-    one(r"impl DownlinkInterpretation for MapInterpretation \{\s*type Error = MessageExtractError;\s*"
-        r"const SINGLE_FRAME_STATE: bool = false;", d, "MapInterpretation::SINGLE_FRAME_STATE")
+    # SINGLE_FRAME_STATE of every interpretation: the trait default, overridden (or not) in each impl block
+    default = one(r"pub trait DownlinkInterpretation \{.*?const SINGLE_FRAME_STATE: bool = (true|false);", d,
+                  "trait default of SINGLE_FRAME_STATE", re.S)
+
+    def single_of(header_regex, what):
+        m = list(re.finditer(header_regex, d))
+        if len(m) != 1:
+            raise ExtractError(f"{what}: expected exactly one impl block, found {len(m)}")
+        i = d.index("{", m[0].end() - 1)
+        depth, j = 0, i
+        while True:
+            if d[j] == "{":
+                depth += 1
+            elif d[j] == "}":
+                depth -= 1
+                if depth == 0:
+                    break
+            j += 1
+            if j >= len(d):
+                raise ExtractError(f"{what}: unbalanced braces")
+        body = d[i:j + 1]
+        cs = re.findall(r"const SINGLE_FRAME_STATE: bool = (true|false);", body)
+        if len(cs) > 1:
+            raise ExtractError(f"{what}: several SINGLE_FRAME_STATE constants")
+        return cs[0] if cs else default          # a missing constant means the trait default
+
+    value = single_of(r"impl<F, E> DownlinkInterpretation for FnMutInterpretation<F>\s*where[^{]*\{", "FnMutInterpretation")
+    mapi = single_of(r"impl DownlinkInterpretation for MapInterpretation \{", "MapInterpretation")
+    raw = single_of(r"impl DownlinkInterpretation for NoInterpretation \{", "NoInterpretation")
+    # which interpretation each public runtime is built with
+    one(r"pub fn value_interpretation\(\) -> impl DownlinkInterpretation<Error = Infallible> \{\s*"
+        r"FnMutInterpretation\(trivial_interpretation\)", d, "value_interpretation = FnMutInterpretation")
+    rt = src("runtime/swimos_runtime/src/downlink/mod.rs")
+    one(r"value_interpretation\(\),\s*InfallibleStrategy,", rt, "ValueDownlinkRuntime uses value_interpretation()")
+    one(r"interpretation: MapInterpretation::default\(\),", rt, "MapDownlinkRuntime::new uses MapInterpretation")
+    one(r"pub use interpretation::NoInterpretation;", rt, "NoInterpretation is public")
     return (HEADER + "namespace SwimVerif.Generated\n"
             f"def dlHeaderInitLen : Nat := {int(hdr)}\n"
             f"def dlReconClear : List Nat := {_bytes(clear)}\n"
             f"def dlReconUpdate : List Nat := {_bytes(update)}\n"
             f"def dlReconRemove : List Nat := {_bytes(remove)}\n"
             f"def dlKeyOffset : Nat := {int(off)}\n"
-            "def dlValueSingleFrame : Bool := true\n"
-            "def dlMapSingleFrame : Bool := false\n"
+            f"def dlDefaultSingleFrame : Bool := {default}\n"
+            f"def dlValueSingleFrame : Bool := {value}\n"
+            f"def dlMapSingleFrame : Bool := {mapi}\n"
+            f"def dlRawSingleFrame : Bool := {raw}\n"
             "end SwimVerif.Generated\n")
 
 
